@@ -789,6 +789,44 @@ func runC08(c *Ctx) *Replay {
 			}
 		}
 	}
+	// failing readers whose stream was never a valid encoding: counts and lengths that
+	// announce more than was ever going to arrive, the failure right behind them
+	if c.R.Chance(1, 4) && len(data) < 1<<16 {
+		for i := 0; i < 6; i++ {
+			in, desc := mutate(c.R, data, spans, nil)
+			if len(in) == 0 {
+				continue
+			}
+			for j := 0; j < 6; j++ {
+				sc := base
+				sc.OldPeer, sc.PeerMask = false, -1
+				sc.Kind = "rfault"
+				sc.Input, sc.Mutation = in, desc
+				sc.Decoder = []string{"decode", "make"}[c.R.Intn(2)]
+				at := c.R.Intn(len(in))
+				if j < 2 {
+					at = len(in) - 1 - j%len(in)
+				}
+				sc.RFault = &simnet.ReadFault{At: at, Err: simnet.ReadErrorNames[c.R.Intn(len(simnet.ReadErrorNames))], Partial: c.R.Bool()}
+				sc.Sched = drawSchedule(c.R, len(in), nil)
+				sc.Reader = readerKinds[c.R.Intn(len(readerKinds))]
+				viol := execRFault(c.N, &sc)
+				c.Count("evaluations", 1)
+				if sc.Extra["fired"] == "1" {
+					c.Count("fault:read-hostile-stream", 1)
+					c.State("c08h", shape, mutClass(desc))
+				} else {
+					c.Count("fault_not_fired", 1)
+				}
+				if viol != nil {
+					c.Log("h", desc, viol.Signature)
+					if rp := c.shrinkAndReport(&sc, viol); rp != nil {
+						return rp
+					}
+				}
+			}
+		}
+	}
 	// destinations that are operating-system objects (code may treat *os.File and net.Conn
 	// specially): a healthy file, and files / pipes / connections on which every Write fails
 	if c.R.Chance(1, 8) {
@@ -1131,6 +1169,11 @@ func execRFault(n *Node, sc *Scenario) *Violation {
 		return nil
 	}
 	data, spans := validEncoding(sb, sc)
+	if sc.Input != nil {
+		// a stream that is not a valid encoding (C08 speaks of failing readers, not of
+		// what they carried before they failed)
+		data, spans = sc.Input, nil
+	}
 	if len(data) == 0 {
 		return nil
 	}
@@ -1158,7 +1201,16 @@ func execRFault(n *Node, sc *Scenario) *Violation {
 	// a clean io.EOF before the last byte of the record is a failure of the reader like any
 	// other: the stream ended inside the record
 	eofInside := do.Link != nil && do.Link.FaultFired && rf.Err == "eof" && do.Link.EOFReturned
-	if do.Link != nil && (do.Link.ErrReturned || eofInside) && do.Err == nil {
+	demand := true
+	if sc.Input != nil {
+		// what a decoder needs of a stream that is no valid encoding is only known when the
+		// reference decoder accepts it: then the failure lies inside the record if it comes
+		// before the last byte the reference consumed. Otherwise only the "no panic, hang or
+		// memory exhaustion" half of the property is judged.
+		_, m, derr := refcodec.Decode(rb.Schema, schema.Type{Named: sc.Type}, data)
+		demand = derr == nil && rf.At < m
+	}
+	if demand && do.Link != nil && (do.Link.ErrReturned || eofInside) && do.Err == nil {
 		mode := "permanent"
 		if rf.Transient {
 			mode = "transient"
